@@ -490,20 +490,48 @@ func (ex *Exec) clockNow() Value {
 	if ex.initMode {
 		return ex.mkTime(K(64, uint64(timeUnixToInternal+1_700_000_000)), nil)
 	}
-	prev, _ := ex.ghost["clock"].(*Term)
+	// The clock stands still between explicit vx.ClockStep calls: a native replay
+	// runs in microseconds, and harnesses keep every compared instant at least half
+	// a second away from any threshold, so "no time passes" is what the native twin
+	// sees too. Time passing is introduced by the harness (ClockStep: the native
+	// twin really sleeps).
+	if cur, ok := ex.ghost["clock"].(*Term); ok {
+		return ex.mkTime(cur, nil)
+	}
 	lo := uint64(timeUnixToInternal + 1_600_000_000)
 	hi := uint64(timeUnixToInternal + 1_900_000_000)
-	if f, ok := ex.ghost["clock.fixed"].(*Term); ok {
-		return ex.mkTime(f, nil)
-	}
-	t := ex.NewInput("clock", 64)
-	c := ex.ts.And(ex.ts.Cmp(OpULe, K(64, lo), t), ex.ts.Cmp(OpULe, t, K(64, hi)))
-	if prev != nil {
-		c = ex.ts.And(c, ex.ts.Cmp(OpULe, prev, t))
-	}
-	ex.assume(c)
+	t := ex.ts.Var("clock#0", 64)
+	ex.assume(ex.ts.And(ex.ts.Cmp(OpULe, K(64, lo), t), ex.ts.Cmp(OpULe, t, K(64, hi))))
 	ex.ghost["clock"] = t
 	return ex.mkTime(t, nil)
+}
+
+func registerClockVx(e *Engine) {
+	// vx.ClockStep(name, max): advance the clock by a symbolic number of whole seconds in [0,max].
+	e.reg(vxPath+".ClockStep", func(ex *Exec, fr *frame, args []Value) Value {
+		ex.clockNow()
+		cur := ex.ghost["clock"].(*Term)
+		max := ex.concreteInt(args[1], "ClockStep max", true)
+		d := ex.NewInput(argStr(ex, args[0]), 64)
+		ex.assume(ex.ts.Cmp(OpULe, d, K(64, uint64(max))))
+		ex.ghost["clock"] = ex.ts.Bin(OpAdd, cur, d)
+		return d
+	})
+	// vx.TimeAgo(base, ageSec) = base - ageSec seconds - 500 ms
+	e.reg(vxPath+".TimeAgo", func(ex *Exec, fr *frame, args []Value) Value {
+		s, n := ex.timeParts(args[0])
+		if !n.IsConst() {
+			ex.unsupported("TimeAgo of an instant with symbolic nanoseconds")
+		}
+		age := args[1].(*Term)
+		ns := int64(n.C) - 500_000_000
+		sec := ex.ts.Bin(OpSub, s, age)
+		if ns < 0 {
+			ns += 1_000_000_000
+			sec = ex.ts.Bin(OpSub, sec, K(64, 1))
+		}
+		return ex.mkTime(sec, K(64, uint64(ns)))
+	})
 }
 
 func registerTime(e *Engine) {
